@@ -49,6 +49,8 @@ def generate(seed, index, tier):
     scn['hashseed'] = 0
     scn['crash_all'] = (tier == 'thorough')
     scn['crash_sample'] = rng.random()
+    # the batch transaction must protect whichever database is evolved
+    scn['alias'] = 'other' if rng.random() < 0.25 else 'default'
     return scn
 
 
@@ -86,7 +88,8 @@ def _faulted(ws, scn, sts, fault, pre, post_u, k, kind, scope, viols, stats,
     stats['fired_%s_%s' % (kind, scope)] = stats.get(
         'fired_%s_%s' % (kind, scope), 0) + 1
     detail = dict(k=k, fault=kind, scope=scope, statement=inj['sql'][:120],
-                  ops=tags, mode=scn.get('mode'), phase=_phase(r))
+                  ops=tags, mode=scn.get('mode'), phase=_phase(r),
+                  alias=scn.get('alias', 'default'))
     if kind == 'sql_error':
         if r.status == 'ok':
             viols.append(violation('C07.failure_swallowed', **detail))
@@ -138,7 +141,12 @@ def execute(scn):
     res = {'violations': viols, 'stats': stats, 'nontrivial': False,
            'shape': scenarios.shape_digest(scn) + scn.get('mode', ''),
            'runs': 0}
-    with runner.Workspace() as ws:
+    alias = scn.get('alias', 'default')
+    with runner.Workspace(databases=['default'] if alias == 'default'
+                          else ['default', alias]) as ws:
+        ws.main_alias = alias
+        if alias != 'default':
+            stats['non_default_database'] = 1
         r0 = common.install(ws, P, sts, 0, scn['rows'])
         if getattr(r0, 'rows_rejected', None):
             stats['rows_rejected'] = 1
